@@ -263,6 +263,10 @@ func (r *Run) Sharded(n int, body func()) {
 }
 
 func (r *Run) merge(p *partial) {
+	r.mergeLocked(p)
+}
+
+func (r *Run) mergeLocked(p *partial) {
 	for k, v := range p.Counters {
 		r.counters[k] += v
 	}
@@ -285,7 +289,15 @@ func (r *Run) merge(p *partial) {
 		}
 	}
 	for _, a := range p.Assume {
-		r.Assume(a)
+		dup := false
+		for _, x := range r.assume {
+			if x == a {
+				dup = true
+			}
+		}
+		if !dup {
+			r.assume = append(r.assume, a)
+		}
 	}
 	for k, v := range p.Extra {
 		if _, ok := r.extra[k]; !ok {
@@ -296,7 +308,16 @@ func (r *Run) merge(p *partial) {
 		r.exhaustive = false
 	}
 	for _, c := range p.Caps {
-		r.Cap(c)
+		dup := false
+		for _, x := range r.caps {
+			if x == c {
+				dup = true
+			}
+		}
+		if !dup {
+			r.caps = append(r.caps, c)
+		}
+		r.exhaustive = false
 	}
 	if r.rule == "" {
 		r.rule = p.Rule
@@ -483,3 +504,18 @@ func Short(s string, n int) string {
 }
 
 func JoinSig(parts ...string) string { return strings.Join(parts, " | ") }
+
+// MergePartialFile merges a worker's partial result file (for drivers that manage their own workers).
+func (r *Run) MergePartialFile(path string) {
+	b, err := os.ReadFile(path)
+	if err != nil {
+		Fatal("read partial %s: %v", path, err)
+	}
+	var p partial
+	if err := json.Unmarshal(b, &p); err != nil {
+		Fatal("bad partial %s: %v", path, err)
+	}
+	r.mu.Lock()
+	defer r.mu.Unlock()
+	r.mergeLocked(&p)
+}
